@@ -1136,13 +1136,13 @@ def check(ctx) -> Result:
         for c in CORPUS_LR:
             check_lr(ctx, res, c)
         allow_k1 = not k1_boot_known(ctx)
-        for _ in range(ctx.n(120, 2500)):
+        for _ in range(ctx.n(300, 2500)):
             check_report(ctx, res, gen_case(rng, allow_k1_boot=allow_k1))
             if len(res.violations) > 8:
                 break
-        for _ in range(ctx.n(40, 600)):
+        for _ in range(ctx.n(80, 600)):
             check_compile(ctx, res, gen_compile(rng))
-        for _ in range(ctx.n(150, 3000)):
+        for _ in range(ctx.n(300, 3000)):
             check_lr(ctx, res, gen_lr(rng))
         # p-values over a grid of t statistics (Phi of scipy vs the model's)
         ts = [rng.uniform(-9, 9) for _ in range(ctx.n(200, 2000))] + [0.0, -0.0, 1.96, -1.96, 8.3, 40.0, MAXF, -MAXF, float('nan')]
@@ -1162,7 +1162,7 @@ def check(ctx) -> Result:
         ctx.batch.add({'op': 'pvalue', 't': [f2b(t) for t in ts]}, cb_p)
         res.evaluations += len(ts)
     # real estimations through the same comparison
-    for i in range(ctx.n(1, 8)):
+    for i in range(ctx.n(2, 10)):
         try:
             case, out = real_estimation_case(rng, i)
         except Exception as e:  # noqa: BLE001
